@@ -205,6 +205,46 @@ theorem mulConstBatch_value (cbs : Shape) (c : BIdx → α) (S : Shape) (o r : B
     (h : mulConstB cbs c o = some r) (idx : BIdx) (hidx : inRange S idx = true) (i j : Nat) :
     r.denote idx i j = o.denote idx i j * c (bcast cbs idx) := mulConstB_value cbs c S o r hu h idx hidx i j
 
+/-- **`a + Zero` broadcasts (since d734ac2)**: `a + ZeroLinearOperator(zbs…)` is `a` expanded to the broadcast batch shape `S`
+(`a` itself when it already has that shape): batch shape `S`, batch-uniform, and at every batch index the matrix of `a` read at
+its broadcast index. -/
+theorem add_zero_broadcast_value (a r : BOp α) (sa zbs : Shape) (ha : a.uniform sa = true) (h : addZeroRight a zbs = .ok r) :
+    ∃ S, bshapes sa zbs = some S ∧ r.bshape = S ∧ r.uniform S = true ∧
+      ∀ idx, inRange S idx = true → ∀ i j, r.denote idx i j = a.denote (bcast sa idx) i j + 0 := by
+  unfold addZeroRight at h
+  rw [bshape_of_uniform sa a ha] at h
+  cases hS : bshapes sa zbs with
+  | none => simp [hS] at h
+  | some S =>
+    simp only [hS, Except.ok.injEq] at h
+    subst h
+    exact ⟨S, rfl, bshape_of_uniform S _ (matchBatch_uniform S sa a ha), matchBatch_uniform S sa a ha,
+      fun idx hidx i j => by rw [matchBatch_value S sa idx hidx a ha]; ring⟩
+
+/-- **`a * Zero` is a Zero of the broadcast shape (since d734ac2)**. -/
+theorem mul_zero_broadcast_value (a r : BOp α) (zbs : Shape) (h : mulZeroRight a zbs = .ok r) :
+    ∃ S, bshapes a.bshape zbs = some S ∧ r.bshape = S ∧ r.rows = a.rows ∧ r.cols = a.cols ∧
+      ∀ idx i j, r.denote idx i j = 0 := by
+  unfold mulZeroRight at h
+  cases hS : bshapes a.bshape zbs with
+  | none => simp [hS] at h
+  | some S =>
+    simp only [hS, Except.ok.injEq] at h
+    subst h
+    exact ⟨S, rfl, rfl, rfl, rfl, fun _ _ _ => rfl⟩
+
+/-- **The code before d734ac2 returned the left operand of `a + Zero(b…)` unchanged**: statement about the OLD formula only — an
+unbatched `a` plus a `(2,)`-batched Zero kept batch shape `()` instead of the broadcast shape `(2,)`. -/
+theorem old_code_add_zero_shape_counterexample :
+    (oldAddZeroRight (BOp.dense [] 1 1 fun _ _ _ => (1 : Int)) [2]).bshape ≠ [2] ∧
+    bshapes ([] : Shape) [2] = some [2] := by decide
+
+/-- **The code before d734ac2 returned the Zero operand of `a * Zero` unchanged**: a `(2,)`-batched `a` times an unbatched
+Zero kept batch shape `()`; statement about the OLD formula only. -/
+theorem old_code_mul_zero_shape_counterexample :
+    (oldMulZeroRight (BOp.dense [2] 1 1 fun _ _ _ => (1 : Int)) [] 1 1).bshape ≠ [2] ∧
+    bshapes ([2] : Shape) [] = some [2] := by decide
+
 /-- the front-end tests of `LinearOperator.mul`: a `(b,1,1)` tensor against an operator of batch shape `(b,)` is a batch of
 constants, a one-element tensor is a 0-d constant, an `(n,n)` tensor is a matrix. -/
 theorem mulKind_examples :
@@ -319,6 +359,18 @@ theorem ladder_identity_mul_matrix : ladder "IdentityLinearOperator" "_mul_matri
 theorem ladder_tri_init : ladder "TriangularLinearOperator" "__init__" =
     some ["tensor:TriangularLinearOperator", "tensor:BatchRepeatLinearOperator", "base_linear_op:TriangularLinearOperator",
           "tensor:is_tensor"] := by decide +kernel
+
+/-- since d734ac2 the `isinstance(other, ZeroLinearOperator)` branches hand over to the Zero operand's own methods
+(`ZeroLinearOperator.__add__` / `.mul` validate and broadcast); before, they returned `self` / `other` unchanged. -/
+theorem zero_branch_base_add : zeroReturn "LinearOperator" "__add__" = some ["other + self"] := by decide +kernel
+theorem zero_branch_sum_add : zeroReturn "SumLinearOperator" "__add__" = some ["other + self"] := by decide +kernel
+theorem zero_branch_base_mul : zeroReturn "LinearOperator" "mul" = some ["other.mul(self)"] := by decide +kernel
+/-- `BlockDiagLinearOperator.matmul` (53611b1): shapes are validated (`_matmul_broadcast_shape`) before the block-wise / diagonal
+shortcuts, whose ladder is BlockDiag, then Diag. -/
+theorem ladder_blockdiag_matmul : ladder "BlockDiagLinearOperator" "matmul" =
+    some ["other:BlockDiagLinearOperator", "other:DiagLinearOperator"] := by decide +kernel
+theorem blockdiag_matmul_validates_first : (callsOf "BlockDiagLinearOperator" "matmul").map List.head? =
+    some (some "_matmul_broadcast_shape") := by decide +kernel
 
 theorem table_mul_constant_overriders : overriders "_mul_constant" =
     ["LinearOperator", "BlockLinearOperator", "CholLinearOperator", "DiagLinearOperator", "ConstantDiagLinearOperator",
